@@ -210,6 +210,18 @@ add(
     "DESIGN.md §4 C19",
 )
 
+add(
+    "C15", "exploration",
+    "Hypothesis rule-based state machine over command histories on generated trees with an outside sentinel; invariant: content + metadata snapshot delta within the command's documented footprint",
+    "About 770 histories of up to 7 commands per quick run (lint in all formats, lint-file, spdx [-o], supported-licenses, --help, --version, annotate on "
+    "files and recursively on directories with .license options, convert-dep5, download of LicenseRef- / SPDX identifiers via a loopback stub with "
+    "--source and -o) on trees with symlinks into a sentinel directory outside the project, ignored files, LICENSES/, .reuse/, read-only files: after "
+    "every command the snapshot (type, size, mode, mtime_ns, sha1, link target) may differ only where the command is documented to write, never for "
+    "exit-2 invocations, and never in the sentinel.",
+    "Covered files below a directory come from the C03 model + git check-ignore; annotate is never given a symlink and .license siblings are never symlinks; root ignores permission bits.",
+    "DESIGN.md §4 C15",
+)
+
 NOT_BUILT = "check not built yet in this revision of /verif (planned in DESIGN.md §4; property-based testing applies)"
 
 
